@@ -101,4 +101,22 @@ theorem ri_loc_assign_src : ri_loc_assign = "loc, ecs" := by decide
 theorem client_loc_lookup_src : client_loc_lookup_args = "ctx, remoteIP, \"client\"" := by decide
 theorem loc_data_call_src : loc_data_call = "\"\", ip" := by decide
 
+/-! The hashed tables (`Agd.ECS.hget`, `hkE`, `hkN`, `itemOf`). -/
+/-- A hit must be present and stored for the same host name (`Agd.ECS.hget`). -/
+theorem item_host_check_src : item_host_check_conds = "!ok | item.host != cr.host" := by decide
+theorem item_get_src : item_get_rhs = "cache.Get(key)" := by decide
+/-- The host name is hashed first, and it is the request's host (`H host bytes`). -/
+theorem key_host_src : key_host_args = "cr.host" := by decide
+theorem cr_host_src : cr_host_rhs = "ri.Host, ri.QType, ri.QClass" := by decide
+/-- Entries are stored with the host name and an expiry (`Agd.ECS.itemOf`). -/
+theorem set_item_src : set_item_args = "key, toCacheItem(cachedResp, cr.host), exp" := by decide
+
+/-! `geoip.File.Refresh`. -/
+/-- A refresh clears the location caches: afterwards `Data` answers from the new readers only. -/
+theorem refresh_clears_src : refresh_clears = "f.hostCache.Clear,f.ipCache.Clear" := by decide
+theorem refresh_readers_src : refresh_readers_rhs = "asn, country" := by decide
+/-- Networks without a country never enter the country maps (`GeoDB.ctryMap`). -/
+theorem ctry_scan_src :
+    ctry_scan_conds = "err != nil | c == CountryNone | subnet.Addr().Is4() | err != nil" := by decide
+
 end Agd.Tie.C05
